@@ -74,3 +74,62 @@ pub fn db_roundtrip(v: &Value) -> Value {
            "after": res.iter().map(|r| classes(r)).collect::<Vec<_>>(), "fresh": res2.iter().map(|r| classes(r)).collect::<Vec<_>>(), "stored": stored,
            "name_lookup_ok": (0..n).all(|i| back.ordering.variable(&names[i]) == Some(Var(i)) && back.ordering.name(Var(i)).as_deref() == Some(names[i].as_str()))})
 }
+
+// ---------------------------------------------------------------- handler closures (generated wrappers in gen/server_dto.rs)
+use crate::server_dto::{add_closure, running_tasks_of, solve_closure, AdfProblem, AppState, Parsing, RunningInfo, Strategy, Task};
+use std::collections::HashSet;
+use std::sync::Mutex;
+
+fn task_of(v: &Value) -> Task {
+    match v.as_str().unwrap_or("Parse") {
+        "Parse" => Task::Parse,
+        s => Task::Solve(serde_json::from_value(json!(s)).expect("strategy")),
+    }
+}
+
+fn running_of(v: &Value) -> HashSet<RunningInfo> {
+    v.as_array().map(|a| a.iter().map(|x| RunningInfo { username: x[0].as_str().unwrap().to_string(), adf_name: x[1].as_str().unwrap().to_string(), task: task_of(&x[2]) }).collect()).unwrap_or_default()
+}
+
+fn running_dump(s: &HashSet<RunningInfo>) -> Value {
+    let mut v: Vec<Vec<String>> = s.iter().map(|r| vec![r.username.clone(), r.adf_name.clone(), match r.task { Task::Parse => "Parse".to_string(), Task::Solve(st) => format!("{:?}", st) }]).collect();
+    v.sort();
+    json!(v)
+}
+
+/// the code a client submits goes through the closure of add_adf_problem (parse, compile by the chosen parsing strategy, picture, stored form) and then,
+/// for every requested strategy, through the closure of solve_adf_problem on the stored form - exactly the two synchronous steps of the web service
+pub fn handler_chain(v: &Value) -> Value {
+    let others = running_of(&v["others"]);
+    let app = Arc::new(AppState { currently_running: Mutex::new(others) });
+    let parsing: Parsing = serde_json::from_value(v["parsing"].clone()).expect("parsing");
+    let user = v["user"].as_str().unwrap_or("u").to_string();
+    let name = v["name"].as_str().unwrap_or("p").to_string();
+    let added = add_closure(app.clone(), user.clone(), name.clone(), v["code"].as_str().unwrap().to_string(), parsing);
+    let running_after_add = running_dump(&app.currently_running.lock().unwrap());
+    let (simp, ag) = match added {
+        Err(e) => return json!({"add_ok": false, "err": e, "running_after_add": running_after_add}),
+        Ok(x) => x,
+    };
+    let mut solves = serde_json::Map::new();
+    let mut running_after = serde_json::Map::new();
+    for st in v["strategies"].as_array().cloned().unwrap_or_default() {
+        let strategy: Strategy = serde_json::from_value(st.clone()).expect("strategy");
+        let ri = RunningInfo { username: user.clone(), adf_name: name.clone(), task: Task::Solve(strategy) };
+        let res = solve_closure(app.clone(), ri, simp.clone(), strategy);
+        solves.insert(st.as_str().unwrap().to_string(), serde_json::to_value(&res).unwrap());
+        running_after.insert(st.as_str().unwrap().to_string(), running_dump(&app.currently_running.lock().unwrap()));
+    }
+    json!({"add_ok": true, "simp": serde_json::to_value(&simp).unwrap(), "parse_only": serde_json::to_value(&ag).unwrap(), "running_after_add": running_after_add,
+           "solves": solves, "running_after_solve": running_after})
+}
+
+/// AdfProblemInfo::from_adf_prob_and_tasks: which tasks are reported as running for a problem
+pub fn running_tasks_cmd(v: &Value) -> Value {
+    let tasks = running_of(&v["running"]);
+    let prob = AdfProblem { name: v["name"].as_str().unwrap().to_string(), username: v["user"].as_str().unwrap().to_string(), code: String::new(), parsing_used: Parsing::Naive,
+                            adf: Default::default(), acs_per_strategy: Default::default() };
+    let mut out: Vec<String> = running_tasks_of(prob, &tasks).iter().map(|t| match t { Task::Parse => "Parse".to_string(), Task::Solve(st) => format!("{:?}", st) }).collect();
+    out.sort();
+    json!({"running_tasks": out})
+}
